@@ -62,4 +62,69 @@ def exportItems (s : Skeleton) : List (Str × Kind) :=
     | .export n k _ => some (n, k)
     | _ => none
 
+/-! ### closedness of a graph value (what C06's invariant gives for the encoder)
+
+  every edge stays inside the live nodes, no node is its own source, every instantiation has a
+  registered package and only argument edges, every alias has an instance as its source, every
+  definition is named, every export names a live node -/
+
+structure Closed (g : GraphVal) : Prop where
+  succLive : ∀ n ∈ g.nodes, ∀ m ∈ n.succ, m ∈ g.ids
+  srcLive : ∀ n ∈ g.nodes, ∀ e ∈ n.inc, e.2 ∈ g.ids ∧ e.2 ≠ n.id
+  pkgLive : ∀ n ∈ g.nodes, ∀ slot sat, n.kind = .instantiation slot sat → (g.pkg? slot).isSome = true
+  instEdges : ∀ n ∈ g.nodes, ∀ slot sat, n.kind = .instantiation slot sat →
+    ∀ e ∈ n.inc, ∃ i nm, e.1 = EdgeW.arg i nm
+  aliasSrc : ∀ n ∈ g.nodes, n.kind = .alias →
+    ∃ src e sn, n.aliasSource = some (src, e) ∧ g.node? src = some sn ∧ sn.ty.kind = .instance
+  defNamed : ∀ n ∈ g.nodes, n.kind = .definition → n.exportName.isSome = true
+  exportsLive : ∀ e ∈ g.exports, e.2 ∈ g.ids
+
+def closedCheck (g : GraphVal) : Bool :=
+  g.nodes.all (fun n => n.succ.all fun m => g.ids.contains m) &&
+  g.nodes.all (fun n => n.inc.all fun e => g.ids.contains e.2 && e.2 != n.id) &&
+  g.nodes.all (fun n => match n.kind with
+    | .instantiation slot _ => (g.pkg? slot).isSome &&
+        n.inc.all fun e => match e.1 with | .arg _ _ => true | _ => false
+    | .alias => match n.aliasSource with
+      | some (src, _) => match g.node? src with
+        | some sn => decide (sn.ty.kind = .instance)
+        | none => false
+      | none => false
+    | .definition => n.exportName.isSome
+    | .import _ => true) &&
+  g.exports.all (fun e => g.ids.contains e.2)
+
+theorem closedCheck_sound {g : GraphVal} (h : closedCheck g = true) : Closed g := by
+  simp only [closedCheck, Bool.and_eq_true, List.all_eq_true, List.contains_iff_mem, bne_iff_ne, ne_eq] at h
+  obtain ⟨⟨⟨h1, h2⟩, h3⟩, h4⟩ := h
+  refine ⟨h1, fun n hn e he => h2 n hn e he, ?_, ?_, ?_, ?_, h4⟩
+  · intro n hn slot sat hk
+    have := h3 n hn
+    simp only [hk, Bool.and_eq_true] at this
+    exact this.1
+  · intro n hn slot sat hk e he
+    have := h3 n hn
+    simp only [hk, Bool.and_eq_true, List.all_eq_true] at this
+    have := this.2 e he
+    cases hw : e.1 with
+    | arg i nm => exact ⟨i, nm, rfl⟩
+    | alias x => simp [hw] at this
+    | dep => simp [hw] at this
+  · intro n hn hk
+    have := h3 n hn
+    simp only [hk] at this
+    cases ha : n.aliasSource with
+    | none => simp [ha] at this
+    | some se =>
+      obtain ⟨src, e⟩ := se
+      simp only [ha] at this
+      cases hs : g.node? src with
+      | none => simp [hs] at this
+      | some sn =>
+        simp only [hs, decide_eq_true_eq] at this
+        exact ⟨src, e, sn, rfl, hs, this⟩
+  · intro n hn hk
+    have := h3 n hn
+    simpa [hk] using this
+
 end Wac.Spec
